@@ -17,6 +17,16 @@ CHECKS = {
             "Every attempt of a payload gets a fate; all fate vectors are enumerated for small arc/force_retry and the first-success/all-fail families for every arc; seeded histories beyond. Return values, call duration and air packets are compared with the chip model's record of each transmit cycle.",
             "Trusts the chip/air model (M1,M2,M3,M4,M6,M7,M9); PTX enters TX mode via listen=False.",
             "5 C02"),
+    "C03": ("exploration",
+            "deterministic simulation of the radio's register file: small-scope sweep (all ordered pairs of configuration calls) plus seeded call histories against an independent reference encoder, on clean/dirty plus/non-plus chips",
+            "Model-based exploration of configuration-call histories: every call's register footprint, getter value, exception and register lint is compared with a reference encoder written from the datasheet register map and the documentation; the cache clause re-enters the object's with-block and requires no register to change. No schedule or fault dimension exists in this property; the environment dimension is chip variant and dirty start state.",
+            "Trusts the chip model's register map/masks and the documentation as the source of the reference; out-of-domain arguments where docs and code disagree accept both readings.",
+            "5 C03"),
+    "C08": ("exploration",
+            "deterministic simulation: breadth-first small-scope sweep over pipe/role call sequences (depth 4/5) plus seeded longer ones, with probe packets from a simulated peer radio",
+            "All call sequences over a 12-symbol alphabet up to depth 4 (quick) or 5 (thorough) and seeded ones to depth 12 are executed on the chip model; after every RX entry / TX-mode open_tx_pipe the chip's pipe-0 state is compared with a 3-variable reference model and confirmed functionally by probe packets and an acknowledged send() through the simulated air; CE-vs-CONFIG ordering is monitored in the chip model.",
+            "Trusts chip/air model decision M2; short addresses compared over the written prefix only.",
+            "5 C08"),
 }
 
 REASON_PENDING = "check not built yet in this commit (planned, see DESIGN.md section 5)"
